@@ -239,18 +239,25 @@ def index_cases(ctx):
         allc = list(itertools.product(comps, repeat=3))
         rng.shuffle(allc)
         combos += allc[:500]
+        # four components with an Ellipsis between / next to advanced indices (an empty Ellipsis still separates them)
+        four = [c for c in itertools.product(comps, repeat=4) if c.count("e") == 1 and sum(x[0] in "almi" for x in c) >= 2]
+        rng.shuffle(four)
+        combos += four[:400]
     for shape, cov, con in shapes if ctx.tier == "thorough" else shapes[:2] + [shapes[2]]:
         for combo in combos:
             # position-dependent construction of masks: track the consumed axis
             objs, toks = [], []
             ax = 0
             ok = True
+            consumed = sum(2 if c == "m2" else 1 for c in combo if c not in ("n", "e"))
+            if consumed > len(shape) or combo.count("e") > 1:
+                continue
             for c in combo:
                 if c in ("n",):
                     o, t = build(c, 0, 0, rng)
                 elif c == "e":
                     o, t = build(c, 0, 0, rng)
-                    # the ellipsis consumes the remaining axes minus the later ones: masks after an ellipsis are built lazily below
+                    ax += len(shape) - consumed            # the axes the ellipsis stands for (possibly none)
                 else:
                     if ax >= len(shape):
                         ok = False
@@ -259,7 +266,7 @@ def index_cases(ctx):
                     ax += 2 if c == "m2" else 1
                 objs.append(o)
                 toks.append(t)
-            if not ok or ("e" in combo and any(c in ("m1", "m2") for c in combo[combo.index("e"):])):
+            if not ok:
                 continue
             out.append((shape, cov, con, tuple(objs) if len(objs) > 1 else objs[0], toks))
     return out
